@@ -194,7 +194,8 @@ def _vcopy(d):
 
 
 def _ntok(t):
-    if isinstance(t, (list, tuple)) and t and t[0] in ('near', 'in9x', 'in9y'):
+    if isinstance(t, (list, tuple)) and t and t[0] in ('near', 'in9x', 'in9y',
+                                                       'vnear', 'vin9'):
         return t[1]
     return tuple(t) if isinstance(t, list) else t
 
@@ -253,6 +254,20 @@ def mk_value(kind, tok, near=False):
         if ax == 'y':         # away from the 'near' variant (x up, y down)
             rel, ab = -rel, -ab
         r[ax] = r[ax] * (1 + rel) if r[ax] else ab
+    if deco in ('vnear', 'vin9', 'vout11', 'vfar') and kind == 'pixverts':
+        r = {'t': 'pix', 'x': list(r['x']), 'y': list(r['y'])}
+        rel = {'vnear': 2e-6, 'vin9': 0.9e-5, 'vout11': -1.1e-5,
+               'vfar': 1e-4}[deco]
+        # the last non-zero coordinate of the vertex list (x, else y)
+        for ax in ('x', 'y'):
+            nz = [k for k, c in enumerate(r[ax]) if c]
+            if nz:
+                r[ax][nz[-1]] = r[ax][nz[-1]] * (1 + rel)
+                break
+    if deco == 'ulpskyv' and kind == 'skyverts':
+        r = dict(r)
+        r['lat'] = list(r['lat'])
+        r['lat'][-1] = r['lat'][-1] + 3e-11      # exact comparison: UNEQUAL
     if deco == 'ulpsky' and kind == 'skypos':
         r = dict(r)
         r['lon'] = r['lon'] + 3e-11           # must compare UNEQUAL (exact)
@@ -273,6 +288,10 @@ def decorate(rng, kind, tok):
         return [rng.pick(['far', 'out11x', 'out11y', 'in9x', 'in9y']), tok]
     if kind == 'skypos' and rng.chance(0.1):
         return ['ulpsky', tok]
+    if kind == 'pixverts' and rng.chance(0.3):
+        return [rng.pick(['vnear', 'vin9', 'vout11', 'vfar']), tok]
+    if kind == 'skyverts' and rng.chance(0.1):
+        return ['ulpskyv', tok]
     return tok
 
 
@@ -382,6 +401,8 @@ def _invalid_values(kind):
                 ('array1', Q([1.0], 'deg'))]
     if kind == 'angle':
         return [('bare_float', 30.0), ('bare_int', 0),
+                ('nan', Q({'t': 'nan'}, 'deg')), ('inf', Q({'t': 'inf'}, 'rad')),
+                ('ninf', Q({'t': 'ninf'}, 'deg')),
                 ('non_angular', Q(30.0, 'm')), ('dimensionless', Q(1.0, '')),
                 ('pix', Q(30.0, 'pix')), ('parsec', Q(3.0, 'pc')),
                 ('solid_angle', Q(2.0, 'sr')), ('deg2', Q(2.0, 'deg2')),
@@ -413,6 +434,13 @@ def _invalid_values(kind):
                 ('quantity', Q([10.0, 20.0], 'deg'))]
     if kind == 'pixverts':
         return [('scalar', pixs), ('array2d', pix2d), ('skyarr', skyarr),
+                ('float', 3.0), ('str', '1,2,3'),
+                ('tuple', {'t': 'tuple', 'v': [[1.0, 5.0, 3.0],
+                                               [1.0, 1.0, 6.0]]}),
+                ('list_of_pix', {'t': 'list', 'v': [pixs, pixs, pixs]}),
+                ('array2d_1row', {'t': 'pix',
+                                  'x': {'t': 'arr', 'v': [[1.0, 5.0, 3.0]]},
+                                  'y': {'t': 'arr', 'v': [[1.0, 1.0, 6.0]]}}),
                 ('became_scalar', {'_mutated': 'array_to_scalar'}),
                 ('list', {'t': 'list', 'v': [{'t': 'tuple', 'v': [1.0, 2.0]},
                                              {'t': 'tuple', 'v': [3.0, 4.0]},
@@ -421,16 +449,39 @@ def _invalid_values(kind):
                                                                [1.0, 5.0, 2.0]]})]
     if kind == 'skyverts':
         return [('scalar', skys), ('pixarr', pixarr), ('none', None),
+                ('str', '10d 20d'), ('float', 3.0),
+                ('frame', {'t': 'exotic', 'v': 'icrs_frame_array'}),
+                ('tuple', {'t': 'tuple', 'v': [[10.0, 11.0, 10.5],
+                                               [20.0, 20.0, 21.0]]}),
+                ('list_of_sky', {'t': 'list', 'v': [skys, skys, skys]}),
                 ('array2d', {'t': 'sky', 'lon': {'t': 'lit', 'v': None},
                              'lat': None, '_2d': True}),
                 ('quantity', Q([10.0, 20.0, 30.0], 'deg'))]
     return []
 
 
-def _icrs_frame():
+def _icrs_frame(array=False):
     import astropy.units as u
     from astropy.coordinates import ICRS
+    if array:
+        return ICRS([10, 11, 10.5] * u.deg, [20, 20, 21] * u.deg)
     return ICRS(10 * u.deg, 20 * u.deg)
+
+
+def _userdict(d):
+    import collections
+    return collections.UserDict(d)
+
+
+# values for ``meta`` / ``visual`` that are not mappings at all (all truthy:
+# a falsy value means "not given" to the constructors)
+NON_MAPPINGS = [('int', 5), ('str', 'abc'), ('tuple', {'t': 'tuple',
+                                                       'v': ['a']}),
+                ('pairs', {'t': 'list', 'v': [{'t': 'tuple',
+                                               'v': ['label', 'x']}]}),
+                ('userdict', {'t': 'exotic', 'v': 'userdict_ok'}),
+                ('userdict_badkey', {'t': 'exotic', 'v': 'userdict_badkey'}),
+                ('float', 2.5), ('object', {'t': 'exotic', 'v': 'object'})]
 
 
 def _mutated_pixcoord(how):
@@ -458,6 +509,9 @@ def build_invalid(rec):
                 'object': object(), 'function': len, 'type': float,
                 # non-positive / non-finite numbers of other numeric types
                 'icrs_frame': _icrs_frame(),
+                'icrs_frame_array': _icrs_frame(array=True),
+                'userdict_badkey': _userdict({'bogus': 1}),
+                'userdict_ok': _userdict({'label': 'x'}),
                 'decimal_inf': decimal.Decimal('Infinity'),
                 'decimal_ninf': decimal.Decimal('-Infinity'),
                 'decimal_zero': decimal.Decimal('0'),
@@ -707,6 +761,9 @@ def domain_problems(obj):
     for f, cls, valid in (('meta', RegionMeta, META_VALID),
                           ('visual', RegionVisual, VISUAL_VALID)):
         d = getattr(obj, f, None)
+        if not isinstance(d, cls):
+            out.append((f, f'{f} is a {type(d).__name__}, not a '
+                        f'{cls.__name__}'))
         if isinstance(d, dict):
             bad = [k for k in d if k not in valid]
             if bad:
@@ -999,7 +1056,7 @@ class Machine:
         self.check_unchanged({id(m)}, 'V1-independence', f'{opname}({a},{b})')
         self.check_eq(i, rng)
 
-    def _copy_checks(self, how, src, obj, m_new, changed):
+    def _copy_checks(self, how, src, obj, m_new, changed, given_objs=None):
         S = self.slots[src]
         cls = S.model.cls
         if type(obj) is not type(S.obj):
@@ -1022,6 +1079,19 @@ class Machine:
         pred = model_eq(S.model, m_new)
         self.compare_objs(S.obj, obj, pred, f'{how} of slot {src} ({cls})',
                           cls)
+        # V1b: no mutable object is reachable from both (whether or not the
+        # harness knows how to edit it in place); what the caller passed in
+        # **changes is shared by design
+        given = set()
+        for v in (given_objs or ()):
+            _shared_ids(v, given)
+        both = (_shared_ids(S.obj, set()) & _shared_ids(obj, set())) - given
+        if both and not S.model.compound:
+            names = sorted({type(o).__name__ for o in
+                            _objs_by_id(obj, both)})
+            self.violation('V1-shared-object', f'{how} of slot {src} ({cls}): '
+                           f'the copy and the original share mutable '
+                           f'object(s) of type {names}', cls=cls)
 
     def op_cell16(self, op, rng):
         """Run ``index`` of a batch visits cell ``index mod #cells`` of
@@ -1042,6 +1112,22 @@ class Machine:
                 items = draw_dict_items(rng, f)
             val = build({'t': f, 'v': items})
             new_dict = MDict(f, items_to_model(items))
+        elif how in ('tol_in', 'tol_out'):
+            # the same position just inside / just outside the documented
+            # relative tolerance of pixel positions (one coordinate)
+            t0 = m.tok[f]
+            if not isinstance(t0, int):
+                return
+            if kind == 'pixpos':
+                deco = rng.pick(['in9x', 'in9y'] if how == 'tol_in'
+                                else ['out11x', 'out11y'])
+            else:
+                deco = 'vin9' if how == 'tol_in' else 'vout11'
+            val = mk_value(kind, [deco, t0])
+            new_tok = t0 if how == 'tol_in' else [deco, t0]
+            if how == 'tol_out' and canon(val) == canon(mk_value(kind, t0)):
+                return
+            how = 'copy' if rng.chance(0.5) else 'assign'
         elif how == 'unit':
             import astropy.units as u
             canonical = mk_value(kind, m.tok[f])
@@ -1085,7 +1171,7 @@ class Machine:
             setattr(mc, f, new_dict)
         else:
             mc.tok[f] = new_tok
-        self._copy_checks(f'{how}({f})', a, c, mc, {f})
+        self._copy_checks(f'{how}({f})', a, c, mc, {f}, given_objs=[val])
         i = self.add_slot('region', c, mc)
         self.ev(slot=i, src=a, cls=cls, field=f, how=how)
         self.state('cell16', cls, f, how)
@@ -1218,7 +1304,7 @@ class Machine:
             else:
                 m.tok[f] = planned.tok[f]
         self._copy_checks(f'copy(**{sorted(changes)})', a, obj, m,
-                          set(changes))
+                          set(changes), given_objs=list(changes.values()))
         # the named fields hold exactly what was passed
         for f, v in changes.items():
             got = getattr(obj, f)
@@ -1532,7 +1618,8 @@ class Machine:
             return
         S = self.slots[a]
         n = len(S.model.items)
-        how = rng.pick(['slice', 'slice', 'copy', 'getitem'])
+        how = rng.pick(['slice', 'slice', 'copy', 'getitem', 'copy.copy',
+                        'Regions(list)'])
         if how == 'slice' and rng.chance(0.25):
             k = rng.randint(0, n)
             sl = slice(k, k)                       # an empty slice
@@ -1552,6 +1639,15 @@ class Machine:
             obj = S.obj.copy()
             m = MList(S.model.items)
             what = '.copy()'
+        elif how == 'copy.copy':
+            obj = copy.copy(S.obj)
+            m = MList(S.model.items)
+            what = ' through copy.copy()'
+        elif how == 'Regions(list)':
+            from regions import Regions
+            obj = Regions(S.obj)              # a new list of the same members
+            m = MList(S.model.items)
+            what = ' through Regions(regions)'
         else:
             if n == 0:
                 return
@@ -1893,6 +1989,10 @@ class Machine:
                 which = rng.pick(['meta', 'visual'])
                 d = {'name' if which == 'meta' else 'color': 'ok',
                      bad_key(rng, which): 1}
+                if rng.chance(0.25):
+                    name, rec = rng.pick(NON_MAPPINGS)
+                    if name != 'pairs':       # (pairs are a documented form
+                        d = build_invalid(rec)  # of the Meta constructors)
                 if which == 'meta':
                     meta = d
                 else:
@@ -2033,7 +2133,12 @@ class Machine:
             items = draw_dict_items(rng, f)
             d = {k: build(x) for k, x in items}
             form = rng.pick(['dict', 'typed'])
-            if invalid and rng.chance(0.3):
+            if invalid and rng.chance(0.25):
+                name, rec = rng.pick(NON_MAPPINGS)
+                v = build_invalid(rec)
+                form = 'non-mapping'
+                value = f'dict:not-a-mapping:{name}'
+            elif invalid and rng.chance(0.3):
                 from regions import RegionMeta, RegionVisual
                 Other = RegionVisual if f == 'meta' else RegionMeta
                 omenu = VISUAL_MENU if f == 'meta' else META_MENU
@@ -2159,6 +2264,13 @@ class Machine:
                 entry = 'update_map' if entry.startswith('update') \
                     else 'ctor_map'
         k0, v0 = items[0] if not invalid else [badk, 1]
+        if entry == 'setdefault' and not invalid and d is not None and \
+                which == 'visual' and rng.chance(0.5):
+            # through the documented alias of a key that is already set
+            al = [a_ for a_, c_ in sorted(VISUAL_KEYMAP.items()) if c_ in d]
+            if al:
+                k0 = rng.pick(al)
+                v0 = {'width': 7, 'point': '+'}[k0]
         fn = None
         if entry == 'setitem':
             fn = lambda: d.__setitem__(k0, v0)  # noqa
@@ -2232,6 +2344,7 @@ class Machine:
             fn = lambda: Cls.fromkeys([k for k, _ in items], 1)  # noqa
             desc = f'{cls}.fromkeys({[k for k, _ in items]})'
         what = f'{cls} {desc}'
+        before_d = dict(d) if d is not None else {}
         value = f'{entry}:' + ('badkey' if invalid else 'valid')
         tgt = None if (d is None or entry.startswith(('ctor', 'fromkeys'))) \
             else a
@@ -2256,6 +2369,20 @@ class Machine:
                                            f'{k!r} does not read back',
                                            cls=cls)
             return
+        if out == 'ok' and entry == 'setdefault':
+            # an existing entry is returned and kept, a new one is stored
+            kk = VISUAL_KEYMAP.get(k0, k0) if which == 'visual' else k0
+            had = kk in before_d
+            try:
+                now = d[k0]
+            except Exception as exc:
+                now = exc
+            want = before_d[kk] if had else v0
+            if not same_value(res, want) or not same_value(now, want):
+                self.violation(
+                    'A3-readback', f'{what}: setdefault on '
+                    f'{"an existing" if had else "a new"} key returned '
+                    f'{res!r} and left {now!r}; expected {want!r}', cls=cls)
         if out == 'ok' and entry not in ('setdefault',):
             use = [[k0, v0]] if entry == 'setitem' else items
             for k, v in use:
@@ -2299,8 +2426,9 @@ class Machine:
             if invalid:
                 seq.insert(rng.randint(0, len(seq)), bad)
             arg = seq
-            if invalid:
+            if invalid or rng.chance(0.5):
                 # the argument form: list, tuple, iterator, generator, map
+                # (valid members must arrive whatever the form)
                 form = rng.pick(['list', 'list', 'tuple', 'iter', 'gen',
                                  'map'])
                 arg = {'list': lambda: seq, 'tuple': lambda: tuple(seq),
@@ -2326,21 +2454,68 @@ class Machine:
                                else 'valid')
         what = f'Regions {entry}'
         tgt = None if entry.startswith('ctor') else a
+        try:
+            before_members = list(L.regions) if L is not None else []
+        except Exception:
+            before_members = None
         out, res = self.c17_outcome(fn, invalid, what, 'Regions', 'members',
                                     value, target=tgt)
+        if out == 'ok' and tgt is not None and before_members is not None:
+            # the accepted members are there, in the documented position
+            want = list(before_members)
+            if entry in ('extend', 'extend_regions'):
+                want += list(members)
+            elif entry == 'append':
+                want.append(item)
+            elif entry == 'insert':
+                want.insert(j, item)
+            try:
+                got = list(L.regions)
+                same = len(got) == len(want) and all(
+                    x is y for x, y in zip(got, want))
+                usable = len(L) == len(want)
+            except Exception as exc:
+                same, usable, got = False, False, exc
+            if not same or not usable:
+                self.violation('A3-readback', f'Regions {entry} (valid '
+                               f'members): the list holds '
+                               f'{len(got) if isinstance(got, list) else got!r}'
+                               f' members, {len(want)} expected (or not the '
+                               'ones given / not in that order)',
+                               cls='Regions')
         self.ev(slot=tgt, cls='Regions', entry=entry, invalid=invalid,
                 outcome=out)
         if tgt is not None:
             self.sync_list(tgt)
         if entry.startswith('ctor') and out != 'rejected':
-            i = self.add_slot('list', res, MList([]))
-            self.sync_list(i)
+            usable = True
+            try:
+                len(res), list(res.regions)
+            except Exception:
+                usable = False
+            if usable:
+                i = self.add_slot('list', res, MList([]))
+                self.sync_list(i)
             if out == 'wrongly-accepted':
-                self.slots[i].model.tainted = True
-            elif len(res.regions) != len(members) or any(
-                    x is not y for x, y in zip(res.regions, members)):
-                self.violation('A3-readback', 'Regions(list) does not hold '
-                               'the members given', cls='Regions')
+                if usable:
+                    self.slots[i].model.tainted = True
+            else:
+                try:
+                    ok_ = len(res) == len(members) and all(
+                        x is y for x, y in zip(list(res.regions), members))
+                    # and it is a working list
+                    if members:
+                        res.append(members[0])
+                        ok_ = ok_ and len(res) == len(members) + 1
+                        res.pop()
+                except Exception as exc:
+                    ok_ = False
+                    self.ev(note=f'Regions(valid iterable) unusable: {exc!r}')
+                if not ok_:
+                    self.violation('A3-readback', 'Regions(<iterable of '
+                                   'valid members>) does not hold the members '
+                                   'given, or is not a working list',
+                                   cls='Regions')
         elif out == 'wrongly-accepted' and tgt is not None:
             self.slots[tgt].model.tainted = True
 
@@ -2688,11 +2863,15 @@ class Machine:
             if not cand:
                 return
             v = mk_value(kind, rng.pick(cand))
-            value = 'order:violating'
+            value = 'order:violating-through-copy'
         else:
             f = rng.pick(['meta', 'visual'])
             d = {k: build(x) for k, x in draw_dict_items(rng, f)}
-            if invalid:
+            if invalid and rng.chance(0.3):
+                name, rec = rng.pick(NON_MAPPINGS)
+                d = build_invalid(rec)
+                value = f'dict:not-a-mapping:{name}'
+            elif invalid:
                 d[bad_key(rng, f)] = 1
                 value = 'dict:badkey'
             else:
@@ -2762,6 +2941,63 @@ class Machine:
             return any(isinstance(x, MRegion) and self._sub_tainted(x)
                        for x in (m.r1, m.r2))
         return False
+
+
+def _shared_ids(o, acc, depth=0):
+    """ids of the MUTABLE value objects reachable from a region: the region,
+    its PixCoord / SkyCoord / Quantity / array parameters (and the arrays
+    inside them), its meta and visual dicts and the lists, dicts and arrays
+    in those.  Immutable things (numbers, strings, tuples of them, functions,
+    units) are not counted."""
+    from astropy.coordinates import SkyCoord
+    from regions import PixCoord, Region
+    if depth > 6 or id(o) in acc:
+        return acc
+    if isinstance(o, Region):
+        acc.add(id(o))
+        for k in list(getattr(o, '_params', ()) or ()) + ['meta', 'visual']:
+            try:
+                _shared_ids(getattr(o, k), acc, depth + 1)
+            except Exception:
+                pass
+    elif isinstance(o, (dict, list)):
+        acc.add(id(o))
+        for v in (o.values() if isinstance(o, dict) else o):
+            _shared_ids(v, acc, depth + 1)
+    elif isinstance(o, tuple):
+        for v in o:
+            _shared_ids(v, acc, depth + 1)
+    elif isinstance(o, PixCoord):
+        acc.add(id(o))
+        for v in (o.x, o.y):
+            if isinstance(v, np.ndarray):
+                acc.add(id(v))
+    elif isinstance(o, (SkyCoord, np.ndarray)):
+        acc.add(id(o))
+    return acc
+
+
+def _objs_by_id(o, ids, out=None, depth=0):
+    from regions import PixCoord, Region
+    out = [] if out is None else out
+    if depth > 6:
+        return out
+    if id(o) in ids:
+        out.append(o)
+    if isinstance(o, Region):
+        for k in list(getattr(o, '_params', ()) or ()) + ['meta', 'visual']:
+            _objs_by_id(getattr(o, k, None), ids, out, depth + 1)
+    elif isinstance(o, dict):
+        for v in o.values():
+            _objs_by_id(v, ids, out, depth + 1)
+    elif isinstance(o, (list, tuple)):
+        for v in o:
+            _objs_by_id(v, ids, out, depth + 1)
+    elif isinstance(o, PixCoord):
+        for v in (o.x, o.y):
+            if id(v) in ids:
+                out.append(v)
+    return out
 
 
 def _mutable_ids(o, acc, depth=0):
@@ -2851,6 +3087,8 @@ def c16_cells():
                 hows = ['copy', 'assign']
                 if kind in ('asize', 'angle'):
                     hows.append('unit')
+                if kind in ('pixpos', 'pixverts'):
+                    hows += ['tol_in', 'tol_out']
                 for how in hows:
                     _C16_CELLS.append((cls, f, kind, how))
     return _C16_CELLS
